@@ -10,6 +10,7 @@ import (
 	"go/types"
 	"sort"
 	"strings"
+	"time"
 
 	"golang.org/x/tools/go/ssa"
 )
@@ -99,6 +100,10 @@ type Exec struct {
 	identSeen  []*Term
 
 	// happens-before race detection (vector clocks) over recorded goroutines
+	deadline     time.Time
+	aliasResolve bool // resolve select-over-store aliasing with the solver under the path condition
+	aliasQ       int
+
 	curThread int
 	vcs       [][]int
 	locs      map[string]*locState
@@ -214,6 +219,9 @@ func (e *Exec) result(status, reason string) PathResult {
 func (e *Exec) feasible(cond *Term) Verdict {
 	if cond.IsTrue() {
 		return Sat
+	}
+	if !e.deadline.IsZero() && time.Now().After(e.deadline) {
+		panic(pathEnd{"undecided", "time budget of the check exceeded"})
 	}
 	if cond.IsFalse() {
 		return Unsat
@@ -1524,8 +1532,14 @@ func (e *Exec) nextOp(fr *frame, x *ssa.Next) Value {
 		e.unsupported("range over string")
 	}
 	tt := x.Type().(*types.Tuple)
-	zk := e.zero(tt.At(1).Type())
-	zv := e.zero(tt.At(2).Type())
+	zeroOf := func(t types.Type) Value {
+		if b, ok := t.(*types.Basic); ok && b.Kind() == types.Invalid {
+			return nil // component not used by the loop
+		}
+		return e.zero(t)
+	}
+	zk := zeroOf(tt.At(1).Type())
+	zv := zeroOf(tt.At(2).Type())
 	for it.m != nil && it.pos < len(it.cands) {
 		c := it.cands[it.pos]
 		it.pos++
@@ -1679,4 +1693,36 @@ func (e *Exec) access(p *PtrV, write, atomic bool, where string) {
 	} else {
 		ls.reads = append(ls.reads, accessRec{t, vc[t], atomic, where})
 	}
+}
+
+// selectR is Select with solver-backed alias resolution: a store whose index
+// cannot equal (or must equal) the read index under the current path condition
+// is skipped (or taken).  The result is valid under the path condition, which
+// only grows, so every later obligation carries the justification.
+func (e *Exec) selectR(arr, idx *Term) *Term {
+	t := e.st.Select(arr, idx)
+	if !e.aliasResolve || t.op != OpSelect || t.a[0].op != OpStore {
+		return t
+	}
+	cur := t.a[0]
+	for cur.op == OpStore {
+		eq := e.st.Eq(cur.a[1], idx)
+		if eq.IsTrue() {
+			return cur.a[2]
+		}
+		if eq.IsFalse() {
+			cur = cur.a[0]
+			continue
+		}
+		e.aliasQ++
+		if e.feasible(eq) == Unsat {
+			cur = cur.a[0]
+			continue
+		}
+		if e.feasible(e.st.Not(eq)) == Unsat {
+			return cur.a[2]
+		}
+		break
+	}
+	return e.st.Select(cur, idx)
 }
